@@ -409,6 +409,14 @@ class BtRun(object):
                 Blackboard.storage.pop(toks[1], None)
             elif op in ("prune", "replace", "insert"):
                 return self.edit(op, toks)
+            elif op == "render":
+                import rd_impl
+                import io
+                import contextlib
+                vis = {b.id: b.status for b in preorder(self.root) if b.status != Status.INVALID}
+                with contextlib.redirect_stdout(io.StringIO()):
+                    ch = rd_impl.render_all(self.root, vis, {})
+                return ["RO " + ("ok" if not ch else "changed " + ",".join(ch))] + report(self.root, ctx)
             elif op == "mgr":
                 return self.mgr_config(toks)
             elif op == "mtick":
